@@ -72,21 +72,34 @@ const bufHuge = 1 << 30 // logged stand-in for counts close to MaxInt (TLC integ
 
 type bufOp struct {
 	Op     string `json:"op"`
-	N      int    `json:"n"`
-	B      []int  `json:"b"`
-	PB     []int  `json:"pb"`     // ReadFrom: planned payload when it differs from what was delivered
-	Fin    string `json:"fin"`    // WriteTo: writer mode (ok/short/err/over)
-	PFin   string `json:"pfin"`   // ReadFrom: reader ending (eof/eofdata/err/errdata/neg)
-	Chunks []int  `json:"chunks"` // ReadFrom: sizes of the pieces the reader hands out
-	Kind   string `json:"kind"`   // Grow from the model graph: fit/nofit/neg/huge (resolved against Available())
-	How    string `json:"how"`    // New: zero/bytes/string/cap/marshal
-	Cap    int    `json:"cap"`    // New(how=cap): capacity of the slice handed over
-	WA     int    `json:"wa"`     // WriteTo: how many bytes the writer accepts (short/err)
-	Fixed  bool   `json:"fixed"`  // replayed from a recording: take the arguments as they are
-	Keep   bool   `json:"keep"`   // the caller keeps the slice / string the call hands out (Write: its argument)
-	H      int    `json:"h"`      // Poke / Fill: which kept slice (1 = oldest)
-	J      int    `json:"j"`      // Poke: slice[J-1] = N
-	Hold   int    `json:"hold"`   // New: how many results the caller keeps
+	N      int    `json:"n,omitempty"`
+	B      []int  `json:"b,omitempty"`
+	PB     []int  `json:"pb,omitempty"`     // ReadFrom: planned payload when it differs from what was delivered
+	Fin    string `json:"fin,omitempty"`    // WriteTo: writer mode (ok/short/err/over)
+	PFin   string `json:"pfin,omitempty"`   // ReadFrom: reader ending (eof/eofdata/err/errdata/neg)
+	Chunks []int  `json:"chunks,omitempty"` // ReadFrom: sizes of the pieces the reader hands out
+	Kind   string `json:"kind,omitempty"`   // Grow from the model graph: fit/nofit/neg/huge (resolved against Available())
+	How    string `json:"how,omitempty"`    // New: zero/bytes/string/cap/marshal
+	Cap    int    `json:"cap,omitempty"`    // New(how=cap): capacity of the slice handed over
+	WA     int    `json:"wa,omitempty"`     // WriteTo: how many bytes the writer accepts (short/err)
+	Fixed  bool   `json:"fixed,omitempty"`  // replayed from a recording: take the arguments as they are
+	Keep   bool   `json:"keep,omitempty"`   // the caller keeps the slice / string the call hands out (Write: its argument)
+	H      int    `json:"h,omitempty"`      // Poke / Fill: which kept slice (1 = oldest)
+	J      int    `json:"j,omitempty"`      // Poke: slice[J-1] = N
+	Hold   int    `json:"hold,omitempty"`   // New: how many results the caller keeps
+	// collaborators with a plan per call (ReadFrom: one entry per Read call; WriteTo: one per Write call)
+	Calls []bufCall `json:"calls,omitempty"`
+	Obs   string    `json:"obs,omitempty"` // per call: "full" forces Len/String/Bytes to be logged after this call
+	Pat   []int     `json:"pat,omitempty"` // [n, salt]: B is the n byte filler bufPattern(n, salt) (large payloads)
+}
+
+// bufCall: what a scripted collaborator does in one of its Read / Write calls.
+type bufCall struct {
+	C     []int   `json:"c,omitempty"`     // reader: the bytes it stores into p (clipped to len(p))
+	Fin   string  `json:"fin,omitempty"`   // reader: more / eof / err / neg;  writer: ok / short / err / over / zero
+	WA    int     `json:"wa,omitempty"`    // writer: how many bytes it accepts (short / err)
+	Order string  `json:"order,omitempty"` // reader: "pre" = store, then call back; "post" = call back, then store
+	Nest  []bufOp `json:"nest,omitempty"`  // calls of the SAME buffer made from inside this Read / Write
 }
 
 type bufBehaviour struct {
@@ -109,6 +122,15 @@ type bufScript struct {
 	Seed       int64          `json:"seed"` // resolves the adaptive choices of scripted behaviours
 }
 
+// bufPattern: the filler of scripted large payloads (checks/c19.py pattern())
+func bufPattern(n, salt int) []int {
+	b := make([]int, n)
+	for i := range b {
+		b[i] = 97 + (i*7+i/23+salt)%26
+	}
+	return b
+}
+
 func toInts(b []byte) []int {
 	r := make([]int, len(b))
 	for i, c := range b {
@@ -129,6 +151,8 @@ func toBytes(a []int) []byte {
 
 var bufInjected = errors.New("injected collaborator failure")
 
+var bufRng = rand.New(rand.NewSource(1)) // resolves the adaptive sizes of nested calls (seeded by the script)
+
 // scriptedReader hands out the planned pieces and then ends as planned.
 type scriptedReader struct {
 	chunks    [][]byte
@@ -138,6 +162,7 @@ type scriptedReader struct {
 	after     int
 	minp      int
 	calls     int
+	pl        []int
 }
 
 func (r *scriptedReader) Read(p []byte) (int, error) {
@@ -148,6 +173,9 @@ func (r *scriptedReader) Read(p []byte) (int, error) {
 	r.calls++
 	if r.calls == 1 || len(p) < r.minp {
 		r.minp = len(p)
+	}
+	if len(r.pl) < 48 {
+		r.pl = append(r.pl, len(p))
 	}
 	if len(r.chunks) > 0 {
 		c := r.chunks[0]
@@ -196,6 +224,7 @@ func (r *scriptedReader) class() string {
 type scriptedWriter struct {
 	fin    string
 	accept int
+	lens   []int
 	calls  int
 	seen   []byte
 	n      int
@@ -204,6 +233,7 @@ type scriptedWriter struct {
 
 func (w *scriptedWriter) Write(p []byte) (int, error) {
 	w.calls++
+	w.lens = append(w.lens, len(p))
 	if w.calls == 1 {
 		w.seen = append([]byte(nil), p...)
 	}
@@ -228,6 +258,273 @@ func (w *scriptedWriter) Write(p []byte) (int, error) {
 	return n, err
 }
 
+// ---- collaborators with a plan per call, which may call back into the buffer they serve
+
+// bufNestRun executes the planned calls of the buffer x from inside a collaborator and renders them
+// as a JSON array of event objects.  Adaptive sizes ("kind") are resolved against x on the first
+// execution and then fixed, so that the second implementation is driven with the same arguments.
+func bufNestRun(x bufAPI, nest []bufOp, rng *rand.Rand) []byte {
+	out := []byte{'['}
+	for k := range nest {
+		op := &nest[k]
+		bufNestResolve(x, op, rng)
+		var e evw
+		e.begin()
+		capBefore := x.Cap()
+		res := bufExec(x, op, &e, nil)
+		if op.Op != "Grow" {
+			e.num("avail", res.avail)
+		}
+		e.num("cap", capBefore)
+		e.num("cap2", x.Cap())
+		res.extra = nil
+		res.write(&e)
+		if res.pan != "" { // (write() stops after pan)
+			e.str("err", "")
+		}
+		e.num("len", bufSafeLen(x))
+		e.b = append(e.b, '}')
+		if k > 0 {
+			out = append(out, ',')
+		}
+		out = append(out, e.b...)
+	}
+	return append(out, ']')
+}
+
+func bufNestResolve(x bufAPI, op *bufOp, rng *rand.Rand) {
+	if op.Kind == "" {
+		return
+	}
+	a, l := x.Available(), x.Len()
+	fill := bufFill
+	if (a > bufNestMax || x.Cap() > 4*bufNestMax) && op.Kind != "exact" && (op.Op == "Write" || op.Op == "WriteString" || op.Op == "Grow") {
+		op.Kind = "fit" // (a pooled PrintCtx keeps its storage: sizes relative to it must stay bounded)
+	}
+	switch op.Op {
+	case "Write", "WriteString":
+		switch op.Kind {
+		case "exact": // from a recorded plan: the filler of exactly N bytes
+			op.B, op.N = fill(op.N), 0
+		case "fit":
+			op.B = fill(min(a, 1+rng.Intn(4)))
+		case "fill":
+			op.B = fill(min(a, 3000))
+		case "nofit":
+			op.B = fill(a + 1 + rng.Intn(3))
+		default: // nofitbig: well beyond the spare capacity
+			op.B = fill(a + 70 + rng.Intn(600))
+		}
+	case "Grow":
+		switch op.Kind {
+		case "fit":
+			op.N = rng.Intn(min(a, 3) + 1)
+		case "nofit":
+			op.N = a + 1 + rng.Intn(3)
+		default:
+			op.N = a + 2*x.Cap() + 65
+		}
+	case "Truncate", "Next", "Read":
+		switch op.Kind {
+		case "half":
+			op.N = l / 2
+		case "lenm1":
+			op.N = max(l-1, 0)
+		case "one":
+			op.N = min(l, 1)
+		default: // len
+			op.N = l
+		}
+	}
+	op.Kind = ""
+}
+
+// planReader: one planned entry per Read call; after the plan (if it has no final answer) io.EOF.
+type planReader struct {
+	x      bufAPI
+	plan   []bufCall
+	rng    *rand.Rand
+	calls  int
+	after  int
+	done   bool
+	minp   int
+	log    []byte // JSON array of the calls received
+	digest []byte // implementation independent part of the log (lock-step cross-check)
+}
+
+func bufPlanned(plan []bufCall) int {
+	for i, c := range plan {
+		if c.Fin != "more" && c.Fin != "" {
+			return i + 1
+		}
+	}
+	return len(plan) + 1
+}
+
+func (r *planReader) Read(p []byte) (int, error) {
+	if r.done {
+		r.after++
+		return 0, io.EOF
+	}
+	if r.calls == 0 || len(p) < r.minp {
+		r.minp = len(p)
+	}
+	var call bufCall
+	if r.calls < len(r.plan) {
+		call = r.plan[r.calls]
+	} else {
+		call = bufCall{Fin: "eof"}
+	}
+	r.calls++
+	if call.Fin == "" {
+		call.Fin = "more"
+	}
+	if call.Order == "" {
+		call.Order = "post"
+	}
+	var e evw
+	e.begin()
+	e.num("pl", len(p))
+	e.num("off", r.x.Cap()-r.x.Available()-r.x.Len())
+	c := toBytes(call.C)
+	if len(c) > len(p) {
+		c = c[:len(p)]
+	}
+	var nest []byte
+	n := 0
+	if call.Order == "pre" {
+		n = copy(p, c)
+		nest = bufNestRun(r.x, call.Nest, r.rng)
+	} else {
+		nest = bufNestRun(r.x, call.Nest, r.rng)
+		n = copy(p, c)
+	}
+	if len(call.Nest) == 0 && call.Fin != "neg" {
+		for i := n; i < len(p) && i < n+96; i++ {
+			p[i] = 0xEE // scratch space (a reader that does not call back; behind the new end of the contents)
+		}
+	}
+	e.bytes("c", c)
+	e.str("fin", call.Fin)
+	e.str("order", call.Order)
+	e.key("nest")
+	e.b = append(e.b, nest...)
+	e.b = append(e.b, '}')
+	if r.calls > 1 {
+		r.log = append(r.log, ',')
+	}
+	r.log = append(r.log, e.b...)
+	r.digest = append(r.digest, bufDigest(nest)...)
+	switch call.Fin {
+	case "eof":
+		r.done = true
+		return n, io.EOF
+	case "err":
+		r.done = true
+		return n, bufInjected
+	case "neg":
+		r.done = true
+		return -1, nil
+	}
+	return n, nil
+}
+
+const bufNestMax = 6000
+
+// bufFill: the payload of a nested write whose size was chosen inside the collaborator
+func bufFill(n int) []int {
+	b := make([]int, n)
+	for i := range b {
+		b[i] = 'A' + (i*7+n)%26
+	}
+	return b
+}
+
+// bufPlanJSON renders a plan as executed (sizes resolved) for replays; long fillers by their length
+func bufPlanJSON(calls []bufCall) string {
+	cp := make([]bufCall, len(calls))
+	for i, c := range calls {
+		cp[i] = c
+		cp[i].Nest = append([]bufOp(nil), c.Nest...)
+		for k := range cp[i].Nest {
+			if o := &cp[i].Nest[k]; len(o.B) > 64 && (o.Op == "Write" || o.Op == "WriteString") {
+				f := bufFill(len(o.B))
+				same := true
+				for j := range f {
+					same = same && f[j] == o.B[j]
+				}
+				if same {
+					o.Kind, o.N, o.B = "exact", len(o.B), nil
+				}
+			}
+		}
+	}
+	b, _ := json.Marshal(cp)
+	return string(b)
+}
+
+// bufDigest drops the capacity observations (avail, cap, cap2) from a rendered nest: what is left
+// must be the same for PrintCtx and bytes.Buffer.
+func bufDigest(nest []byte) []byte {
+	s := string(nest)
+	for _, k := range []string{"\"avail\":", "\"cap\":", "\"cap2\":"} {
+		for {
+			i := strings.Index(s, k)
+			if i < 0 {
+				break
+			}
+			j := i + len(k)
+			for j < len(s) && (s[j] == '-' || (s[j] >= '0' && s[j] <= '9')) {
+				j++
+			}
+			s = s[:i] + s[j:]
+		}
+	}
+	return []byte(s)
+}
+
+// planWriter: one planned entry per Write call; calls beyond the plan accept everything.
+type planWriter struct {
+	x     bufAPI
+	plan  []bufCall
+	rng   *rand.Rand
+	lens  []int
+	seen  []byte
+	n     int
+	err   error
+	nest  []byte // nested calls of the first Write
+}
+
+func (w *planWriter) Write(p []byte) (int, error) {
+	k := len(w.lens)
+	w.lens = append(w.lens, len(p))
+	if k == 0 {
+		w.seen = append([]byte(nil), p...)
+	}
+	call := bufCall{Fin: "ok"}
+	if k < len(w.plan) {
+		call = w.plan[k]
+	}
+	nest := bufNestRun(w.x, call.Nest, w.rng)
+	n := len(p)
+	var err error
+	switch call.Fin {
+	case "short":
+		n = min(n, call.WA)
+	case "err":
+		n = min(n, call.WA)
+		err = bufInjected
+	case "over":
+		n = len(p) + 1
+	case "zero":
+		n = 0
+	}
+	if k == 0 {
+		w.n, w.err, w.nest = n, err, nest
+	}
+	return n, err
+}
+
 // ---------------------------------------------------------------- projection of results
 
 type bufResult struct {
@@ -245,6 +542,8 @@ type bufResult struct {
 	arg bool // raw is the argument of Write / WriteString
 	// collaborator side
 	extra func(e *evw)
+	col   string // what the collaborator received / saw from inside (compared in lock-step)
+	avail int    // Available() before the call
 }
 
 // ---------------------------------------------------------------- the caller's kept slices
@@ -329,7 +628,7 @@ func bufScribble(b []byte) {
 }
 
 func (a *bufResult) same(b *bufResult) bool {
-	if a.pan != b.pan {
+	if a.pan != b.pan || a.col != b.col {
 		return false
 	}
 	if a.pan != "" {
@@ -468,6 +767,10 @@ func unclipCount(n int) int {
 // run executes op on x and returns the projected result.  The op's arguments are written into e.
 func bufExec(x bufAPI, op *bufOp, e *evw, pool *bufPool) (res *bufResult) {
 	res = &bufResult{}
+	if len(op.Pat) == 2 {
+		op.B, op.Pat = bufPattern(op.Pat[0], op.Pat[1]), nil
+	}
+	res.avail = x.Available()
 	e.str("op", op.Op)
 	e.num("n", op.N)
 	defer func() {
@@ -543,6 +846,24 @@ func bufExec(x bufAPI, op *bufOp, e *evw, pool *bufPool) (res *bufResult) {
 		res.err = "nil"
 		x.Grow(unclipCount(op.N))
 	case "ReadFrom":
+		if op.Calls != nil {
+			rd := &planReader{x: x, plan: op.Calls, rng: bufRng}
+			res.extra = func(e *evw) {
+				e.key("calls")
+				e.b = append(e.b, '[')
+				e.b = append(e.b, rd.log...)
+				e.b = append(e.b, ']')
+				e.num("planned", bufPlanned(op.Calls))
+				e.str("plan", bufPlanJSON(op.Calls))
+				e.boolean("done", rd.done)
+				e.num("after", rd.after)
+				e.num("minp", rd.minp)
+				res.col = fmt.Sprintf("calls=%d after=%d %s", rd.calls, rd.after, rd.digest)
+			}
+			n, err := x.ReadFrom(rd)
+			res.rn, res.hasN, res.err = int(n), true, errClass(err)
+			break
+		}
 		payload := toBytes(op.B)
 		if op.PB != nil {
 			payload = toBytes(op.PB)
@@ -570,17 +891,40 @@ func bufExec(x bufAPI, op *bufOp, e *evw, pool *bufPool) (res *bufResult) {
 			e.boolean("done", rd.done)
 			e.num("after", rd.after)
 			e.num("minp", rd.minp)
+			e.ints("pl", rd.pl)
 		}
 		n, err := x.ReadFrom(rd)
 		res.rn, res.hasN, res.err = int(n), true, errClass(err)
 	case "WriteTo":
+		if op.Calls != nil {
+			w := &planWriter{x: x, plan: op.Calls, rng: bufRng}
+			res.extra = func(e *evw) {
+				e.str("plan", bufPlanJSON(op.Calls))
+				e.boolean("called", len(w.lens) > 0)
+				e.ints("wl", w.lens)
+				e.bytes("wb", w.seen)
+				e.num("wn", w.n)
+				e.str("werr", errClass(w.err))
+				e.key("nest")
+				if w.nest == nil {
+					w.nest = []byte("[]")
+				}
+				e.b = append(e.b, w.nest...)
+				res.col = fmt.Sprintf("wl=%v %s", w.lens, bufDigest(w.nest))
+			}
+			n, err := x.WriteTo(w)
+			res.rn, res.hasN, res.err = int(n), true, errClass(err)
+			break
+		}
 		w := &scriptedWriter{fin: op.Fin, accept: op.WA}
 		res.extra = func(e *evw) {
 			e.str("fin", op.Fin)
 			e.num("wa", op.WA)
 			e.boolean("called", w.calls > 0)
 			e.num("wcalls", w.calls)
+			e.ints("wl", w.lens)
 			e.bytes("wb", w.seen)
+			res.col = fmt.Sprintf("wl=%v", w.lens)
 			e.num("wn", w.n)
 			e.str("werr", errClass(w.err))
 		}
@@ -707,6 +1051,7 @@ type bufRunner struct {
 	outPC, outBB, outLock *traceOut
 	rng                   *rand.Rand
 	trace                 int
+	seed                  int64
 	e                     evw
 	pools                 [2]*bufPool // what the caller keeps of PrintCtx's / bytes.Buffer's results
 }
@@ -751,6 +1096,9 @@ func (r *bufRunner) observe(x bufAPI, e *evw, full bool, pool *bufPool) {
 func (r *bufRunner) step(pc, bb bufAPI, op *bufOp, obs string, last bool, idx int) {
 	if op.Op == "Grow" && op.Kind != "" {
 		a := pc.Available()
+		if a > 1<<17 && (op.Kind == "nofit" || op.Kind == "nofitbig") {
+			op.Kind = "fit" // (a pooled PrintCtx keeps its storage from behaviour to behaviour: do not double it for ever)
+		}
 		switch op.Kind {
 		case "fit":
 			op.N = r.rng.Intn(min(a, 3) + 1)
@@ -808,9 +1156,9 @@ func (r *bufRunner) step(pc, bb bufAPI, op *bufOp, obs string, last bool, idx in
 		switch obs {
 		case "every":
 			// (long contents: now and then, more often right after the argument of a write was overwritten)
-			r.observe(x, e, bufSafeLen(x) <= 96 || last || sampled || (res.arg && (bufSafeLen(x) <= 300 || idx%3 == 0)), pool)
+			r.observe(x, e, bufSafeLen(x) <= 96 || last || sampled || op.Obs == "full" || (op.Calls != nil && bufSafeLen(x) <= 4096) || (res.arg && (bufSafeLen(x) <= 300 || idx%3 == 0)), pool)
 		default:
-			if last || idx%16 == 15 {
+			if last || idx%16 == 15 || op.Obs == "full" {
 				r.observe(x, e, true, pool)
 			}
 		}
@@ -876,6 +1224,7 @@ func clipBytes(b []byte) []byte {
 
 func (r *bufRunner) begin(nw *bufOp, init []byte) {
 	r.trace++
+	bufRng = rand.New(rand.NewSource(r.seed*1000003 + int64(r.trace))) // nested sizes: a function of the trace alone
 	r.pools = [2]*bufPool{{cap: nw.Hold}, {cap: nw.Hold}}
 	for _, out := range []*traceOut{r.outPC, r.outBB} {
 		e := &r.e
@@ -910,6 +1259,7 @@ func bufferMain(args []string) int {
 	readJSON(args[0], &sc)
 	r := &bufRunner{outPC: newTraceOut(args[1] + ".pc.ndjson"), outBB: newTraceOut(args[1] + ".bb.ndjson"),
 		outLock: newTraceOut(args[1] + ".lock.ndjson"), rng: rand.New(rand.NewSource(sc.Seed))}
+	r.seed = sc.Seed
 	defer r.outPC.close()
 	defer r.outBB.close()
 	defer r.outLock.close()
@@ -974,7 +1324,7 @@ func (g *bufGen) size(x bufAPI) int {
 		}
 		return v
 	}
-	if g.profile == "small" {
+	if g.profile == "small" || g.profile == "re" {
 		switch k := rng.Intn(100); {
 		case k < 12:
 			return 0
@@ -1169,6 +1519,93 @@ func (g *bufGen) otherOp(x bufAPI) bufOp {
 	return bufOp{Op: "String"}
 }
 
+// nestOp: one call a collaborator makes on the buffer it serves, from inside its Read / Write.  Sizes
+// are given as kinds and resolved inside the collaborator, where Available() / Len() are known.
+func (g *bufGen) nestOp() bufOp {
+	rng := g.rng
+	wr := []string{"Write", "WriteString"}[rng.Intn(2)]
+	switch k := rng.Intn(100); {
+	case k < 14:
+		return bufOp{Op: wr, Kind: "fit"}
+	case k < 22:
+		return bufOp{Op: wr, Kind: "nofit"}
+	case k < 34:
+		return bufOp{Op: wr, Kind: "big"}
+	case k < 37:
+		return bufOp{Op: wr, Kind: "fill"}
+	case k < 42:
+		t := bufTokens[rng.Intn(len(bufTokens))]
+		return bufOp{Op: "WriteByte", N: int(t[rng.Intn(len(t))])}
+	case k < 48:
+		return bufOp{Op: "WriteRune", N: bufRunes[rng.Intn(len(bufRunes))]}
+	case k < 54:
+		return bufOp{Op: "ReadByte"}
+	case k < 60:
+		return bufOp{Op: "ReadRune"}
+	case k < 65:
+		return bufOp{Op: []string{"Next", "Read"}[rng.Intn(2)], Kind: []string{"half", "one", "len", "lenm1"}[rng.Intn(4)]}
+	case k < 69:
+		return bufOp{Op: []string{"ReadBytes", "ReadString"}[rng.Intn(2)], N: []int{'\n', 'a', 'A', 0x7e}[rng.Intn(4)]}
+	case k < 74:
+		return bufOp{Op: "UnreadByte"}
+	case k < 78:
+		return bufOp{Op: "UnreadRune"}
+	case k < 83:
+		return bufOp{Op: "Truncate", Kind: []string{"half", "lenm1", "len", "one"}[rng.Intn(4)]}
+	case k < 86:
+		return bufOp{Op: "Reset"}
+	case k < 93:
+		return bufOp{Op: "Grow", Kind: []string{"fit", "nofit", "big"}[rng.Intn(3)]}
+	case k < 95:
+		return bufOp{Op: "Len"}
+	case k < 98:
+		return bufOp{Op: "Bytes"}
+	}
+	return bufOp{Op: "String"}
+}
+
+func (g *bufGen) nest() []bufOp {
+	n := []int{0, 1, 1, 1, 2, 2, 3}[g.rng.Intn(7)]
+	ops := make([]bufOp, n)
+	for i := range ops {
+		ops[i] = g.nestOp()
+	}
+	return ops
+}
+
+// planOp: ReadFrom / WriteTo with a collaborator that follows a plan per call and calls back
+func (g *bufGen) planOp(x bufAPI) bufOp {
+	rng := g.rng
+	if rng.Intn(2) == 0 {
+		op := bufOp{Op: "WriteTo", Calls: []bufCall{}}
+		for k := 0; k < 1+rng.Intn(2); k++ {
+			c := bufCall{Fin: []string{"ok", "ok", "short", "err", "err", "zero", "over"}[rng.Intn(7)], Nest: g.nest()}
+			c.WA = []int{0, 1, 2, x.Len(), x.Len() / 2, x.Len() + 1}[rng.Intn(6)]
+			op.Calls = append(op.Calls, c)
+		}
+		return op
+	}
+	op := bufOp{Op: "ReadFrom", Calls: []bufCall{}}
+	n := rng.Intn(4)
+	for k := 0; k < n; k++ {
+		c := bufCall{Fin: "more", Order: []string{"pre", "post"}[rng.Intn(2)]}
+		if rng.Intn(4) > 0 {
+			c.C = toInts(g.payload([]int{1, 2, 5, 8, 40, 511, 512}[rng.Intn(7)]))
+		}
+		if rng.Intn(3) > 0 {
+			c.Nest = g.nest()
+		}
+		if k == n-1 {
+			c.Fin = []string{"more", "eof", "eof", "err", "neg"}[rng.Intn(5)]
+			if c.Fin == "neg" {
+				c.C = nil
+			}
+		}
+		op.Calls = append(op.Calls, c)
+	}
+	return op
+}
+
 // afterRead: the calls whose outcome depends on what the preceding read recorded
 func (g *bufGen) afterRead(x bufAPI) bufOp {
 	rng := g.rng
@@ -1278,8 +1715,18 @@ func (g *bufGen) next1(x bufAPI, prev string, pool *bufPool) bufOp {
 	}
 	L := x.Len()
 	limit := 48
-	if g.profile != "small" {
+	if g.profile == "re" {
+		limit = 2000
+		if k := rng.Intn(100); k < 40 || (prev == "" && k < 80) {
+			return g.planOp(x)
+		}
+	} else if g.profile != "small" {
 		limit = 4200
+		if rng.Intn(60) == 0 {
+			return g.planOp(x)
+		}
+	} else if rng.Intn(120) == 0 {
+		return g.planOp(x)
 	}
 	isRead := prev == "Read" || prev == "Next" || prev == "ReadByte" || prev == "ReadRune" || prev == "ReadBytes" ||
 		prev == "ReadString" || prev == "Grow" || prev == "UnreadByte" || prev == "UnreadRune" || prev == "WriteTo"
